@@ -797,6 +797,46 @@ func TestVerifC19Machine(t *testing.T) {
 	})
 }
 
+// TestVerifC19Bitmap checks the block-level pre-filter in isolation: for any set of
+// extension ids recorded into a block bitmap, every filter that matches one of the
+// ids (itself or a descendant) must be reported as possibly present, so that a
+// block holding a matching element is never skipped.
+func TestVerifC19Bitmap(t *testing.T) {
+	st := vs.New("C19", t)
+	vs.Check(t, 3, func(rt *rapid.T) {
+		c := st.Case()
+		bsize := rapid.SampledFrom([]int{bitmapBytesTwoLevels, bitmapBytesThreeLevels}).Draw(rt, "bitmap")
+		maxNode := 16
+		if bsize == bitmapBytesThreeLevels {
+			maxNode = 272
+		}
+		ids := rapid.SliceOfN(rapid.Uint16Range(0, uint16(maxNode)), 1, 6).Draw(rt, "ids")
+		bw, _ := newBlockWriter(nil, newIndexBlockDesc(0, bsize), 0, true)
+		bw.setBitmap(ids)
+		matched := 0
+		for f := 0; f <= maxNode; f++ {
+			flt := extFilter(f)
+			got, err := flt.contains(bw.desc.extBitmap)
+			if err != nil {
+				rt.Fatalf("contains(filter=%d, bitmap=%d bytes): %v", f, bsize, err)
+			}
+			if c19Matches(uint16(f), ids) {
+				matched++
+				if !got {
+					rt.Fatalf("bitmap built from %v reports filter %d as absent: a block holding a matching element would be skipped", ids, f)
+				}
+			}
+		}
+		deep := false
+		for _, id := range ids {
+			deep = deep || id > 16
+		}
+		c.Classf("bitmap=%d deep=%v", bsize, deep)
+		c.NonTrivial(true, fmt.Sprintf("bm/%d/%v", bsize, ids))
+		c.Sample(deep, func() any { return map[string]any{"bitmap": bsize, "ids": ids, "matching_filters": matched} })
+	})
+}
+
 // ---------------------------------------------------------------------------
 // Corrupted bytes
 
